@@ -10,7 +10,10 @@ import (
 	"flag"
 	"fmt"
 	"os"
+	"os/exec"
+	"path/filepath"
 	"strconv"
+	"strings"
 	"time"
 
 	"verifsim/scn"
@@ -74,6 +77,7 @@ func main() {
 	out := flag.String("out", "", "report file (JSON)")
 	replay := flag.String("replay", "", "replay file to execute instead of generating")
 	trace := flag.Bool("trace", false, "print the event trace of a replay")
+	jsonOut := flag.Bool("json", false, "replay: print the result as JSON (used for child-process execution)")
 	racelog := flag.String("racelog", "", "prefix of the race detector's log_path (race build)")
 	hashes := flag.Bool("hashes", false, "record the event-log hash of every run (determinism self-test)")
 	noShrink := flag.Bool("no-shrink", false, "do not minimise")
@@ -86,7 +90,7 @@ func main() {
 	start := time.Now()
 
 	if *replay != "" {
-		os.Exit(doReplay(*replay, opt, *trace))
+		os.Exit(doReplay(*replay, opt, *trace, *jsonOut))
 	}
 
 	ok := func(text string) bool { return run.CompileOK(text) }
@@ -123,17 +127,39 @@ func main() {
 		if len(r.Viol) > 0 {
 			f := Found{Viol: r.Viol[0], All: r.Viol, Original: s.Clone()}
 			f.Original.Sched = r.Sched
+			fresh := func(c *scn.Scenario) *run.Result { return childExec(c, *racelog, false) }
+			// Does the violation reproduce from a pristine process? If not, the code
+			// under test keeps state the simulator does not reset between runs: the
+			// earlier runs of this process are part of the history.
+			if fr := fresh(f.Original); fr != nil && !run.HasClass(fr, f.Viol.Class) {
+				withHist := f.Original.Clone()
+				for j := *from; j < i; j++ {
+					b := gen(*prop, *part, *seed, j, ok)
+					for k := range b.Exprs {
+						b.Exprs[k].AST = nil
+					}
+					withHist.Before = append(withHist.Before, b)
+				}
+				if fr2 := fresh(withHist); fr2 != nil && run.HasClass(fr2, f.Viol.Class) {
+					f.Original = withHist
+				}
+			}
 			min := f.Original
 			if !*noShrink {
 				var n int
-				min, n = run.Shrink(f.Original, f.Viol.Class, opt, 6000, *shrinkTime)
+				min, n = run.Shrink(f.Original, f.Viol.Class, opt, 6000, *shrinkTime, fresh)
 				f.ShrinkExecs = n
 			}
 			// confirm the minimised scenario once more, with a trace
 			o2 := opt
 			o2.Trace = true
-			r2 := run.Execute(min, o2)
-			if run.HasClass(r2, f.Viol.Class) {
+			var r2 *run.Result
+			if len(f.Original.Before) > 0 {
+				r2 = childExec(min, *racelog, true)
+			} else {
+				r2 = run.Execute(min, o2)
+			}
+			if r2 != nil && run.HasClass(r2, f.Viol.Class) {
 				f.Confirmed = true
 				f.Minimised = min
 				f.Trace = r2.Trace
@@ -171,6 +197,66 @@ func main() {
 	_ = os.WriteFile(*out+".nt", hb, 0o644)
 }
 
+// childExec executes a scenario in a pristine child process of this same
+// binary and returns what it reported (nil on trouble).
+func childExec(c *scn.Scenario, racelog string, trace bool) *run.Result {
+	tmp, err := os.CreateTemp(filepath.Dir(os.Args[0]), "child-*.json")
+	if err != nil {
+		return nil
+	}
+	defer os.Remove(tmp.Name())
+	rf := ReplayFile{Property: c.Prop, Scenario: c}
+	b, _ := json.Marshal(&rf)
+	tmp.Write(b)
+	tmp.Close()
+	args := []string{"-replay", tmp.Name(), "-json"}
+	if trace {
+		args = append(args, "-trace")
+	}
+	cmd := exec.Command(os.Args[0], args...)
+	cmd.Env = os.Environ()
+	if racelog != "" {
+		prefix := racelog + ".child"
+		args = append(args, "-racelog", prefix)
+		cmd = exec.Command(os.Args[0], args...)
+		var env []string
+		for _, e := range os.Environ() {
+			if strings.HasPrefix(e, "GORACE=") {
+				var opts []string
+				for _, o := range strings.Fields(strings.TrimPrefix(e, "GORACE=")) {
+					if !strings.HasPrefix(o, "log_path=") {
+						opts = append(opts, o)
+					}
+				}
+				e = "GORACE=" + strings.Join(append(opts, "log_path="+prefix), " ")
+			}
+			env = append(env, e)
+		}
+		cmd.Env = env
+	}
+	out, err := cmd.Output()
+	if err != nil {
+		if _, ok := err.(*exec.ExitError); !ok {
+			return nil
+		}
+	}
+	var jr struct {
+		Viol  []run.Violation
+		Sched []int
+		Trace []string
+	}
+	if json.Unmarshal(out, &jr) != nil {
+		return nil
+	}
+	if racelog != "" {
+		matches, _ := filepath.Glob(racelog + ".child.*")
+		for _, m := range matches {
+			os.Remove(m)
+		}
+	}
+	return &run.Result{Viol: jr.Viol, Sched: jr.Sched, Trace: jr.Trace, Stats: run.NewStats()}
+}
+
 // ReplayFile is the on-disk replay format written by xpcheck.
 type ReplayFile struct {
 	Property  string          `json:"property"`
@@ -187,7 +273,7 @@ type ReplayFile struct {
 	All       []run.Violation `json:"all_violations,omitempty"`
 }
 
-func doReplay(path string, opt run.Options, trace bool) int {
+func doReplay(path string, opt run.Options, trace, jsonOut bool) int {
 	b, err := os.ReadFile(path)
 	if err != nil {
 		fmt.Fprintln(os.Stderr, "xpsim:", err)
@@ -199,6 +285,23 @@ func doReplay(path string, opt run.Options, trace bool) int {
 		return 2
 	}
 	opt.Trace = trace
+	if jsonOut {
+		r := run.Execute(rf.Scenario, opt)
+		if run.HarnessRace != "" {
+			fmt.Fprintln(os.Stderr, "xpsim: race inside the harness:\n"+run.HarnessRace)
+			return 2
+		}
+		b, _ := json.Marshal(struct {
+			Viol  []run.Violation
+			Sched []int
+			Trace []string
+		}{r.Viol, r.Sched, r.Trace})
+		os.Stdout.Write(b)
+		if len(r.Viol) > 0 {
+			return 1
+		}
+		return 0
+	}
 	if n, _ := strconv.Atoi(os.Getenv("XPSIM_REPEAT")); n > 1 {
 		// diagnostic: the same scenario several times in one process
 		for i := 0; i < n; i++ {
